@@ -26,11 +26,11 @@ type c04conn struct {
 
 type c04flow struct {
 	name   string
-	pre    string // prefix of every processor key (a referenced flow needs keys of its own)
+	pre    string          // prefix of every processor key (a referenced flow needs keys of its own)
 	skip   map[string]bool // own processors that are not defined (replaced by another flow's processor)
-	nReq   int // request filters p1..pn
-	nGen   int // early-response nodes g1..gm
-	nResp  int // response filters r1..rk
+	nReq   int             // request filters p1..pn
+	nGen   int             // early-response nodes g1..gm
+	nResp  int             // response filters r1..rk
 	req    []c04conn
 	resp   []c04conn
 	status map[string]int // gen -> status
@@ -320,8 +320,8 @@ func runC04(s *kernel.Sim) {
 		desc[0] = fmt.Sprintf("%s req=%v resp=%v", f0.name, f0.req, f0.resp)
 		s.Knobs["cross_flow_processor"] = true
 	}
-	model := flows    // what the reference interpreter walks
-	steered := flows  // whose filters the steering headers address
+	model := flows   // what the reference interpreter walks
+	steered := flows // whose filters the steering headers address
 	if refShape {
 		main := flows[0]
 		g := genC04Flow(tp, "lib")
